@@ -23,6 +23,11 @@ GEN = {"und4": "modularity_louvain_und", "und5": "modularity_louvain_und",
 GEN_B = ["mod5", "moddir4", "potts5", "nsym4", "nasym4"]      # community_louvain (LouvainBImpl)
 MCB_QUICK = ["q_mod4", "q_moddir3", "q_nsym3", "q_nasym3"]
 MCB_THOROUGH = ["q_mod4", "q_moddir3", "q_potts4", "q_nsym3", "q_nasym3", "t_mod4w", "t_nsym4", "t_nasym4", "t_moddir4"]
+GEN_S = {"sta5": "modularity_louvain_und_sign", "gja4": "modularity_louvain_und_sign",
+         "pos4": "modularity_louvain_und_sign", "fsmp4": "modularity_finetune_und_sign",
+         "fneg5": "modularity_finetune_und_sign"}                  # signed routines (LouvainSImpl)
+MCS_QUICK = ["q_sta4", "q_fgja3"]
+MCS_THOROUGH = ["q_sta4", "q_fgja3", "t_smp4", "t_fneg4", "t_pos4", "t_fsta4"]
 MC_QUICK = ["q_und4", "q_und4g", "q_dir3", "q_fdir3"]
 MC_THOROUGH = ["q_und4", "q_und4g", "q_fund4", "q_dir3", "q_fdir3", "t_und4w", "t_fund4w", "t_dir4", "t_fdir4"]
 GAMMAS = [(1, 1), (3, 4), (5, 4)]
@@ -49,9 +54,27 @@ def behaviour_jobs(ctx, prop, per_worker):
     thunks += [(lambda c=c: ctx.gen("MC_LouvainB.tla", "Gen_LouvainB_%s.cfg" % c, tag="simB_" + c, workers=4,
                                     timeout=900, extra=["-simulate", "num=%d" % per_worker, "-depth", "400",
                                                         "-seed", str(ctx.seed + 19)])) for c in GEN_B]
+    thunks += [(lambda c=c: ctx.gen("MC_LouvainS.tla", "Gen_LouvainS_%s.cfg" % c, tag="simS_" + c, workers=4,
+                                    timeout=900, extra=["-simulate", "num=%d" % per_worker, "-depth", "400",
+                                                        "-seed", str(ctx.seed + 29)])) for c in GEN_S]
     res = ctx.parallel(thunks, width=5)
     jobs = []
-    for cfg, items in zip(GEN_B, res[len(GEN):]):
+    for (cfg, fn), items in zip(GEN_S.items(), res[len(GEN) + len(GEN_B):]):
+        seen = set()
+        for it in items:
+            key = (str(it["W"]), str(it["start"]), str(it["script"]))
+            if key in seen:
+                continue
+            seen.add(key)
+            ties = any(x[0] == "tie" for x in it["script"])
+            job = dict(fn=fn, prop=prop, W=it["W"], gn=it["gn"], gd=it["gd"], qtype=it["qtype"],
+                       script=[[x[0], list(x[1])] for x in it["script"] if x[0] == "perm"],
+                       expect=None if ties else dict(ci=it["ci"], qnum=it["qnum"], qden=it["qden"]),
+                       exact_ties=int(ties), src="model-behaviour", cfg="S_" + cfg)
+            if "finetune" in fn:
+                job["start"] = it["start"]
+            jobs.append(job)
+    for cfg, items in zip(GEN_B, res[len(GEN):len(GEN) + len(GEN_B)]):
         seen = set()
         for it in items:
             key = (str(it["W"]), str(it["start"]), str(it["script"]))
@@ -179,7 +202,10 @@ def run_family(ctx, prop):
     ctx.parallel([(lambda c=c: ctx.mc("MC_Louvain.tla", "MC_Louvain_%s.cfg" % c, tag="mc_" + c,
                                       workers=6, timeout=3000)) for c in mc_cfgs] +
                  [(lambda c=c: ctx.mc("MC_LouvainB.tla", "MC_LouvainB_%s.cfg" % c, tag="mcB_" + c,
-                                      workers=6, timeout=3000)) for c in mcb], width=4)
+                                      workers=6, timeout=3000)) for c in mcb] +
+                 [(lambda c=c: ctx.mc("MC_LouvainS.tla", "MC_LouvainS_%s.cfg" % c, tag="mcS_" + c,
+                                      workers=6, timeout=3000))
+                  for c in (MCS_QUICK if ctx.quick else MCS_THOROUGH)], width=4)
     jobs = behaviour_jobs(ctx, prop, 40 if ctx.quick else 500)
     nb = len(jobs)
     jobs += random_jobs(ctx, prop, 360 if ctx.quick else 6000)
